@@ -75,6 +75,10 @@ func rewriteStmt(fset *token.FileSet, s ast.Stmt) {
 }
 
 func main() {
+	if len(os.Args) > 1 && os.Args[1] == "-globals" {
+		globalsMain(os.Args[2:])
+		return
+	}
 	srcDir, outDir := os.Args[1], os.Args[2]
 	overlay := map[string]string{}
 	ents, err := os.ReadDir(srcDir)
